@@ -1,0 +1,205 @@
+//go:build verif
+
+package harfbuzz
+
+import (
+	"sort"
+
+	"github.com/go-text/typesetting/font"
+	"github.com/go-text/typesetting/font/opentype/tables"
+)
+
+// Hooks for the verification harness (property C18, window-local rule engines): the real GPOS pair
+// positioning (applyGPOS -> applyGPOSPair1 / applyGPOSPair2 -> applyGPOSValueRecord) driven through
+// the real lookup loop (otMap.apply -> applyString -> applyForward) on a real Buffer, with synthetic
+// PairPos subtables that are serialised and read back by the library's own parser.
+// Nothing here changes behaviour; the file is only compiled with -tags verif.
+
+// VerifValue is a ValueRecord reduced to XPlacement, YPlacement, XAdvance, YAdvance and an
+// XAdvDevice table: [4] != 0 means "the record has a device table", [5] is its delta in pixels.
+type VerifValue [6]int
+
+// VerifPair is a pair of format 1 (First, Second are glyphs) or a cell of the class matrix of
+// format 2 (First, Second are classes).
+type VerifPair struct {
+	First, Second int
+	V1, V2        VerifValue
+}
+
+// VerifPairLookup is a synthetic GPOS lookup with one PairPos subtable.
+type VerifPairLookup struct {
+	Flag     uint16
+	Mask     uint32
+	Format   int    // 1 or 2
+	VF1, VF2 uint16 // value formats, within XPlacement|YPlacement|XAdvance|YAdvance|XAdvDevice
+	Pairs    []VerifPair
+	// format 2 only
+	Cov            []int
+	Class1, Class2 [][2]int // glyph, class (a glyph not listed has no class)
+	NC1, NC2       int
+}
+
+const verifValueBits = uint16(tables.XPlacement | tables.YPlacement | tables.XAdvance | tables.YAdvance | tables.XAdvDevice)
+
+// serialises a value record; device tables (format 3, one size: ppem) are appended to *devs and
+// addressed from the start of the parent table, which will be devBase bytes long before them
+func verifValueBytes(b []byte, vf uint16, v VerifValue, ppem uint16, devs *[]byte, devBase int) []byte {
+	if vf&uint16(tables.XPlacement) != 0 {
+		b = verifPut16(b, v[0])
+	}
+	if vf&uint16(tables.YPlacement) != 0 {
+		b = verifPut16(b, v[1])
+	}
+	if vf&uint16(tables.XAdvance) != 0 {
+		b = verifPut16(b, v[2])
+	}
+	if vf&uint16(tables.YAdvance) != 0 {
+		b = verifPut16(b, v[3])
+	}
+	if vf&uint16(tables.XAdvDevice) != 0 {
+		if v[4] != 0 {
+			b = verifPut16(b, devBase+len(*devs))
+			*devs = verifPut16(*devs, int(ppem))
+			*devs = verifPut16(*devs, int(ppem))
+			*devs = verifPut16(*devs, 3)
+			*devs = verifPut16(*devs, int(uint16(int8(v[5]))<<8))
+		} else {
+			b = verifPut16(b, 0)
+		}
+	}
+	return b
+}
+
+func verifValueSize(vf uint16) int {
+	n := 0
+	for vf != 0 {
+		n += int(vf & 1)
+		vf >>= 1
+	}
+	return 2 * n
+}
+
+func verifClassDefBytes(cls [][2]int) []byte {
+	s := append([][2]int(nil), cls...)
+	sort.SliceStable(s, func(i, j int) bool { return s[i][0] < s[j][0] })
+	var u [][2]int
+	for _, c := range s {
+		if len(u) == 0 || u[len(u)-1][0] != c[0] { // the first entry of a glyph wins
+			u = append(u, c)
+		}
+	}
+	b := verifPut16(nil, 2)
+	b = verifPut16(b, len(u))
+	for _, c := range u {
+		b = verifPut16(b, c[0])
+		b = verifPut16(b, c[0])
+		b = verifPut16(b, c[1])
+	}
+	return b
+}
+
+func verifPairPosTable(l VerifPairLookup, ppem uint16) (tables.PairPos, error) {
+	vf1, vf2 := l.VF1&verifValueBits, l.VF2&verifValueBits
+	var src []byte
+	if l.Format == 1 {
+		var firsts []int
+		for _, p := range l.Pairs {
+			firsts = append(firsts, p.First)
+		}
+		cov, index := verifCoverage(firsts)
+		var covG []int
+		for _, g := range cov.Glyphs {
+			covG = append(covG, int(g))
+		}
+		sets := make([][]VerifPair, len(covG))
+		seen := map[[2]int]bool{}
+		for _, p := range l.Pairs { // the first entry of a pair wins
+			if seen[[2]int{p.First, p.Second}] {
+				continue
+			}
+			seen[[2]int{p.First, p.Second}] = true
+			i := index[p.First]
+			sets[i] = append(sets[i], p)
+		}
+		covB := verifCoverageBytes(covG)
+		head := verifPut16(nil, 1)
+		head = verifPut16(head, 10+2*len(sets))
+		head = verifPut16(head, int(vf1))
+		head = verifPut16(head, int(vf2))
+		head = verifPut16(head, len(sets))
+		var body []byte
+		off := 10 + 2*len(sets) + len(covB)
+		for _, set := range sets {
+			sort.Slice(set, func(i, j int) bool { return set[i].Second < set[j].Second })
+			head = verifPut16(head, off+len(body))
+			recs := verifPut16(nil, len(set))
+			var devs []byte
+			devBase := 2 + len(set)*(2+verifValueSize(vf1)+verifValueSize(vf2))
+			for _, p := range set {
+				recs = verifPut16(recs, p.Second)
+				recs = verifValueBytes(recs, vf1, p.V1, ppem, &devs, devBase)
+				recs = verifValueBytes(recs, vf2, p.V2, ppem, &devs, devBase)
+			}
+			body = append(append(body, recs...), devs...)
+		}
+		src = append(append(head, covB...), body...)
+	} else {
+		cell := map[[2]int]VerifPair{}
+		for _, p := range l.Pairs {
+			if _, ok := cell[[2]int{p.First, p.Second}]; !ok {
+				cell[[2]int{p.First, p.Second}] = p
+			}
+		}
+		cov, _ := verifCoverage(l.Cov)
+		var covG []int
+		for _, g := range cov.Glyphs {
+			covG = append(covG, int(g))
+		}
+		covB, c1B, c2B := verifCoverageBytes(covG), verifClassDefBytes(l.Class1), verifClassDefBytes(l.Class2)
+		matLen := l.NC1 * l.NC2 * (verifValueSize(vf1) + verifValueSize(vf2))
+		head := verifPut16(nil, 2)
+		head = verifPut16(head, 16+matLen)
+		head = verifPut16(head, int(vf1))
+		head = verifPut16(head, int(vf2))
+		head = verifPut16(head, 16+matLen+len(covB))
+		head = verifPut16(head, 16+matLen+len(covB)+len(c1B))
+		head = verifPut16(head, l.NC1)
+		head = verifPut16(head, l.NC2)
+		var devs []byte
+		devBase := 16 + matLen + len(covB) + len(c1B) + len(c2B)
+		mat := []byte{}
+		for a := 0; a < l.NC1; a++ {
+			for b := 0; b < l.NC2; b++ {
+				p := cell[[2]int{a, b}]
+				mat = verifValueBytes(mat, vf1, p.V1, ppem, &devs, devBase)
+				mat = verifValueBytes(mat, vf2, p.V2, ppem, &devs, devBase)
+			}
+		}
+		src = append(append(append(append(append(head, mat...), covB...), c1B...), c2B...), devs...)
+	}
+	out, _, err := tables.ParsePairPos(src)
+	return out, err
+}
+
+// VerifApplyPairPos applies the PairPos lookups, in order, through otMap.apply (GPOS proxy, one
+// stage); ppem != 0 makes applyGPOSValueRecord use the device tables.
+func VerifApplyPairPos(in VerifEngineBuf, lookups []VerifPairLookup, ppem uint16) (out VerifEngineBuf, panicMsg string) {
+	defer verifRecover(&panicMsg)
+	fnt := verifEngineFont(nil)
+	fnt.face.SetPpem(ppem, ppem)
+	var m otMap
+	accels := make([]otLayoutLookupAccelerator, len(lookups))
+	for i, l := range lookups {
+		sub, err := verifPairPosTable(l, ppem)
+		if err != nil {
+			return out, "table: " + err.Error()
+		}
+		accels[i].init(lookupGPOS(font.GPOSLookup{LookupOptions: font.LookupOptions{Flag: l.Flag},
+			Subtables: []tables.GPOSLookup{sub}}))
+		m.lookups[1] = append(m.lookups[1], lookupMap{index: uint16(i), autoZWNJ: true, autoZWJ: true, mask: l.Mask})
+	}
+	m.stages[1] = []stageMap{{lastLookup: len(lookups)}}
+	b := verifEngineBuffer(in)
+	m.apply(otProxy{otProxyMeta: proxyGPOS, accels: accels}, nil, fnt, b)
+	return verifEngineState(b, in), ""
+}
